@@ -8,6 +8,8 @@ H = {
  "C01-30": M + "no C01 text made a sequence template be read again from a later token after a roll-back; 'sequence_backtracking_case' does",
  "C02-29": M + "no C02 grammar had a symbol that derives the empty string and nothing else in front of the deciding token; 'gen_epsilon_only_grammar' was added",
  "C02-30": M + "FOLLOW sets never had to travel round a ring of symbols whose FIRST sets hold only the empty string; 'gen_follow_ring_grammar' was added",
+ "C03-29": M + "productions of the C03 grammars without a token were made of distinct symbols; the symbol in front of a right recursion may now be the same nullable symbol two or three times and a symbol that is not nullable",
+ "C03-30": M + "the harness let an exception of another type out of the long-cycle cases (it ended inconclusive); any other exception from the constructor is now the violation 'constructor-raised-something-else'",
  "C04-29": M + "no multi-line token of the C04 configurations was closed by an EMPTY line; the configuration 'block closed by an empty line' was added",
  "C04-30": M + "src_name never held a per cent sign; every fifth input is now named like '50%d.cfg'",
  "C05-29": M + "keywords were declared for the kinds the patterns name; a keyword on the TARGET of a synonym was added",
